@@ -698,6 +698,27 @@ def _mape_violations(e, p, w):
     return bad
 
 
+def _mape_scale_violations(scale, weight_scale):
+    """ts_mape is a ratio: a series (or its weights) expressed in another unit gives the same value; the naive
+    previous-value forecast scores 1 whatever the magnitude of the series"""
+    import numpy
+    from mlinsights.timeseries.metrics import ts_mape
+    base = numpy.array([3.0, 5.0, 4.0, 9.0, 7.0, 12.0, 8.0, 15.0]) * scale
+    naive = numpy.concatenate([[numpy.nan], base[:-1]])
+    w = None if weight_scale is None else numpy.array([1.0, 2.0, 1.0, 3.0, 1.0, 2.0, 2.0, 1.0]) * weight_scale
+    bad = []
+    try:
+        r = ts_mape(base, naive, w)
+    except Exception as ex:  # noqa: BLE001
+        return [("ts_mape:raises-on-scaled-series", "ts_mape raises on a series of magnitude %g" % scale,
+                 "%s: %s" % (type(ex).__name__, str(ex)[:120]), 1.0)]
+    if r is numpy.ma.masked or not abs(float(r) - 1.0) <= 1e-9:
+        bad.append(("ts_mape:naive-not-one:scaled", "ts_mape of the naive previous-value forecast is not 1 for a series of "
+                    "magnitude %g%s" % (scale, "" if w is None else " with weights of magnitude %g" % weight_scale),
+                    None if r is numpy.ma.masked else float(r), 1.0))
+    return bad
+
+
 def _mape_table_violations(n, past, d2):
     """the multi-horizon target table build_ts_X_y yields (delay2 >= 3: several consecutive targets per row) scored
     against the naive forecast 'the previous row': still exactly 1"""
@@ -728,6 +749,12 @@ def search(ctx, hints):
     ctx.shadow(need_cython=False)
     rng = ctx.rng
     vs, evals, nontriv, samples = [], 0, set(), []
+    for scale, wscale in ((1e-11, None), (1e-9, 1.0), (1.0, 1e-11), (1e9, None), (1e-4, 1e-6)):
+        evals += 1
+        nontriv.add(("mape-scale", scale, wscale))
+        for key, what, obs, req in _mape_scale_violations(scale, wscale):
+            vs.append(Violation(key, what, {"kind": "mape-scale", "scale": scale, "weight_scale": wscale, "n": 8, "past": 0,
+                                            "delay2": 0}, obs, req))
     for n, past, d2 in ((12, 1, 3), (15, 2, 4), (20, 3, 3)):
         evals += 1
         nontriv.add(("mape-table", n, past, d2))
@@ -798,7 +825,7 @@ def search(ctx, hints):
 
     def size(v):
         i = v.input
-        return (i["n"], i["past"], i["delay2"]) if i["kind"] in ("frame", "mape-table") else (len(i["expected"]), 0, 0)
+        return (i["n"], i["past"], i["delay2"]) if i["kind"] in ("frame", "mape-table", "mape-scale") else (len(i["expected"]), 0, 0)
     for v in vs:
         if v.key not in best or size(v) < size(best[v.key]):
             best[v.key] = v
@@ -808,6 +835,8 @@ def search(ctx, hints):
 def replay(ctx, item):
     ctx.shadow(need_cython=False)
     inp = item["input"]
+    if inp.get("kind") == "mape-scale":
+        return [Violation(k, w, inp, o, r) for k, w, o, r in _mape_scale_violations(inp["scale"], inp["weight_scale"])]
     if inp.get("kind") == "mape-table":
         return [Violation(k, w, inp, o, r) for k, w, o, r in _mape_table_violations(inp["n"], inp["past"], inp["delay2"])]
     if inp.get("kind") == "mape":
